@@ -6,6 +6,7 @@ the correspondence run of `harness/props/c01.py`.  Specification: the independen
 decidable `Layout.conformant`, `SULW.conformant` (Spec.lean).
 -/
 import TD.C01.Lemmas
+import TD.C01.Wf
 
 namespace TD.C01
 
@@ -49,6 +50,13 @@ theorem iter_nothing_added (sul : SULW) (recs : List LR) (ℓ : Layout) (hs : su
   unfold Layout.conformant at hc
   simp only [Bool.and_eq_true] at hc
   rw [count_first_cutAll recs ℓ.recs hc.1]
+
+/-- The specification encoder emits a byte string: every element of the encoded file is < 256 (so the file the
+theorems speak about is a real file; the harness additionally compares it byte for byte with an independent Python
+encoder on every run). -/
+theorem encode_bytes (sul : SULW) (recs : List LR) (ℓ : Layout) (hs : sul.conformant = true)
+    (hc : ℓ.conformant recs = true) : ∀ x ∈ encode sul recs ℓ, x < 256 :=
+  encode_lt sul recs ℓ hs hc
 
 /-- Informational (not part of the property): a label-only file — zero logical records — is rejected by the code
 as it is (`FileRead._enter` reads a visible record unconditionally). -/
